@@ -705,3 +705,33 @@ type SizeSettings struct{ TokensPerChar float64 }
 func PositionForTokens(cfg *SizeSettings, tokens int) int {
 	return int(float64(tokens) / cfg.TokensPerChar)
 }
+
+// Catalogue violates R2.25 (lookup locks and re-enters itself) and RX.DF (index is computed from names in the
+// constructor, Rename assigns names without recomputing index).
+type Catalogue struct {
+	mu    sync.Mutex
+	names []string
+	index map[string]int
+	next  map[int]int
+}
+
+func buildIndex(names []string) map[string]int {
+	m := map[string]int{}
+	for i, n := range names {
+		m[n] = i
+	}
+	return m
+}
+
+func (c *Catalogue) Reindex() { c.index = buildIndex(c.names) }
+
+func (c *Catalogue) Rename(names []string) { c.names = names }
+
+func (c *Catalogue) Lookup(n int) int {
+	c.mu.Lock()
+	defer c.mu.Unlock()
+	if m, ok := c.next[n]; ok && m != n {
+		return c.Lookup(m)
+	}
+	return n
+}
